@@ -1,12 +1,13 @@
 (* P.C16 -- Interpolation models survive base shifts (partial: exact-real mechanism theorems; LAPACK enters as an oracle).
    [R] on the regenerated Model.shift_base: the residual models m(p) = c + J (p - xbase) take the same value at every fixed
    absolute point before and after a base shift, and J is unchanged (hence so are the assembled gradient and Hessian at a fixed
-   point);  [R] the Gauss-Newton assembly g = 2 J'r, H = 2 J'J satisfies g.s + s'Hs/2 = |r + Js|^2 - |r|^2 (tied to the source text of
-   build_full_model by a table);  every method that changes the point set clears the cached factorisation (table + MBook).
+   point);  [R] the Gauss-Newton assembly g = 2 J'r, H = 2 J'J satisfies g.s + s'Hs/2 = |r + Js|^2 - |r|^2, proved for the function
+   regenerated from Model.build_full_model;  every method that changes the point set clears the cached factorisation (table + MBook).
    Reproduction of the data by the fitted model and the Lagrange identities depend on LAPACK's least-squares solve and are
    validated by the oracle sweep with conditioning-scaled tolerances. *)
 From Coq Require Import ZArith List Bool String Lia Reals Lra.
-Require Import DV.Base.Prelude DV.Base.F64 DV.Base.OrdLaws DV.Spec.Schema DV.Lib.MSpec DV.Lib.MBook DV.Lib.MDyk DV.Lib.MInterp DV.Lib.Tables.
+From Flocq Require Import Core Raux.
+Require Import DV.Base.Prelude DV.Base.F64 DV.Base.OrdLaws DV.Spec.Schema DV.Lib.MSpec DV.Lib.MBook DV.Lib.MDyk DV.Lib.MInterp DV.Lib.MRad DV.Lib.Tables.
 From G Require Import Gen_util Gen_model Gen_tables.
 From P Require Import Char_model.
 Import ListNotations.
@@ -49,6 +50,22 @@ Proof.
 Qed.
 End Any.
 
+(* the same identity for the function regenerated from Model.build_full_model: with r = c + J xopt, the (g, H) it returns
+   satisfy  g.s + s'Hs/2 = |r + Js|^2 - |r|^2  for every s -- the quadratic model of the objective is exactly the squared norm of
+   the linearised residuals (exact reals; numpy's J.T and np.dot(A, B) as Prelude.matT / matmat) *)
+Lemma c_two_R : @ofdy ArithR 1 1 = 2%R.
+Proof. rewrite ofdyR. cbn [bpow]. change (Z.pow_pos radix2 1) with 2%Z. lra. Qed.
+Theorem C16_build_full_model_is_gauss_newton : forall (st : @model_state ArithR) s n, model_jac st <> [] ->
+  Forall (fun row => List.length row = n) (model_jac st) -> List.length (model_const st) = List.length (model_jac st) -> List.length s = n ->
+  let r := vadd (model_const st) (mv (model_jac st) (@py_model_xopt ArithR st false)) in
+  let '(g, H) := @py_model_build_full_model ArithR st in
+  (sdot g s + / 2 * sdot s (mv H s) = ssq (vadd r (mv (model_jac st) s)) - ssq r)%R.
+Proof.
+  intros st s n Hne HJ Hc Hs.
+  assert (E: @py_model_build_full_model ArithR st = MInterp.bfm (model_jac st) (model_const st) (@py_model_xopt ArithR st false)).
+  { unfold py_model_build_full_model, MInterp.bfm. cbv zeta. rewrite c_two_R. reflexivity. }
+  rewrite E. exact (build_full_model_gauss_newton (model_jac st) (model_const st) (@py_model_xopt ArithR st false) s n Hne HJ Hc Hs).
+Qed.
 (* the source text of build_full_model and of the constant-term computation is what the algebra above models *)
 Open Scope string_scope.
 Definition bfm (target value : string) : bool :=
@@ -64,4 +81,5 @@ Proof. vm_compute. repeat split; reflexivity. Qed.
 
 Print Assumptions C16_shift_keeps_model_values.
 Print Assumptions C16_gauss_newton_assembly.
+Print Assumptions C16_build_full_model_is_gauss_newton.
 Print Assumptions C16_cache_cleared.
